@@ -189,6 +189,27 @@ let () =
           | r -> cls_of r in
         if m1 = o1 && m2 = o2 then Printf.printf "OK %s\n" id
         else Printf.printf "MISMATCH %s entry model_r=%s model_sr=%s\n" id m1 m2
+      | ["M"; id; "mdat"; data; large; _; enc] ->
+        let (ow, osw) = match split_on '/' enc with [a; b] -> (a, b) | _ -> failwith "bad enc" in
+        let m = { md_data = (if data = "-" then [] else bytes_of_hex data); md_large = (large = "1") } in
+        if enc_string (mdat_enc_w m) = ow && enc_string (mdat_enc_sw m) = osw then Printf.printf "OK %s\n" id
+        else Printf.printf "MISMATCH %s mdat-encode model_w=%s\n" id (enc_string (mdat_enc_w m))
+      | ["M"; id; kind; fields; _; kids; enc] ->
+        let (ow, osw) = match split_on '/' enc with [a; b] -> (a, b) | _ -> failwith "bad enc" in
+        let bytes_of s = if s = "-" then [] else bytes_of_hex s in
+        let (mw, msw) =
+          (match kind, split_on ':' fields with
+           | "stsd", [v; f; c; sz] ->
+             let ks = parse_boxes kids in
+             (stsd_enc_w (ni v) (ni f) (ni c) (ni sz) ks, stsd_enc_sw (ni v) (ni f) (ni c) (ni sz) ks)
+           | "vse", [nm; dri; w; h; hr; vr; fc; cn; sz] ->
+             let ks = parse_boxes kids in
+             let v = { vs_dri = ni dri; vs_width = ni w; vs_height = ni h; vs_hres = ni hr; vs_vres = ni vr; vs_frames = ni fc;
+                       vs_cname = bytes_of cn; vs_kids = [] } in
+             (vse_enc_w (bytes_of_hex nm) v (ni sz) ks, vse_enc_sw (bytes_of_hex nm) v (ni sz) ks)
+           | _ -> failwith ("bad M line " ^ kind)) in
+        if enc_string mw = ow && enc_string msw = osw then Printf.printf "OK %s\n" id
+        else Printf.printf "MISMATCH %s leaf-encode model_w=%s model_sw=%s\n" id (enc_string mw) (enc_string msw)
       | ["L"; id; hex; o1; o2] ->
         let bs = bytes_of_hex hex in
         (* the byte-level loops deliver the box sequence; the one assembly rule that can reject a sequence of these leaves
